@@ -1,5 +1,7 @@
 // Native replay / witness driver for `http_serve::dir::FsDir::get` (path-validation clause of C19).
 // Scenario line: id|path_hex ; observation: id|invalid|ok|err:<kind> plus whether the opened file is the secret outside the base.
+// Scenario line: id|gz|path_hex|accept_encoding_hex or -|auto_gzip 0/1 (a second tree with plain files, .gz siblings and .gz
+//   directories) ; observation: id|<invalid / err:Kind / ok:dir / ok:file:<content>>|enc=<none or value>|varies=0/1|hdrs name=hex,..
 #![cfg(feature = "dir")]
 use http::HeaderMap;
 use std::io::Read;
@@ -24,10 +26,52 @@ async fn verif_dir_witness() {
     std::fs::write(base.join("secret"), b"inner").unwrap();
     std::fs::write(base.join("a/secret"), b"inner").unwrap();
     let fsdir = http_serve::dir::FsDir::builder().for_path(&base).unwrap();
+    // tree for the .gz-sibling clause
+    let gzb = tmp.path().join("gzbase");
+    for d in ["gzbase", "gzbase/gzdir.gz", "gzbase/missing.gz", "gzbase/sub", "gzbase/dir"] {
+        std::fs::create_dir_all(tmp.path().join(d)).unwrap();
+    }
+    for (f, c) in [("plain", "P:plain"), ("both", "P:both"), ("both.gz", "Z:both"), ("gzdir", "P:gzdir"), ("onlygz.gz", "Z:onlygz"),
+                   ("sub/both", "P:sub/both"), ("sub/both.gz", "Z:sub/both"), ("dir.gz", "Z:dir"), ("both.gz.gz", "Z:both.gz")] {
+        std::fs::write(gzb.join(f), c.as_bytes()).unwrap();
+    }
+    let gz_on = http_serve::dir::FsDir::builder().for_path(&gzb).unwrap();
+    let gz_off = http_serve::dir::FsDir::builder().auto_gzip(false).for_path(&gzb).unwrap();
     let text = std::fs::read_to_string(inp).unwrap();
     let mut out = String::new();
     for line in text.lines() {
         if line.trim().is_empty() {
+            continue;
+        }
+        let fl: Vec<&str> = line.split('|').collect();
+        if fl.len() > 1 && fl[1] == "gz" {
+            let path = String::from_utf8(unhex(fl[2])).unwrap();
+            let mut h = HeaderMap::new();
+            if fl[3] != "-" {
+                h.insert(http::header::ACCEPT_ENCODING, http::HeaderValue::from_bytes(&unhex(fl[3])).unwrap());
+            }
+            let d = if fl[4] == "1" { gz_on.clone() } else { gz_off.clone() };
+            let obs = match d.get(&path, &h).await {
+                Err(e) if e.kind() == std::io::ErrorKind::InvalidInput => "invalid|enc=-|varies=-|".to_string(),
+                Err(e) => format!("err:{:?}|enc=-|varies=-|", e.kind()),
+                Ok(node) => {
+                    let enc = node.encoding().unwrap_or("none").to_string();
+                    let varies = if node.encoding_varies() { 1 } else { 0 };
+                    let mut out_h = HeaderMap::new();
+                    node.add_encoding_headers(&mut out_h);
+                    let hs: Vec<String> = out_h.iter().map(|(k, v)| format!("{}={}", k.as_str(), v.as_bytes().iter().map(|x| format!("{:02x}", x)).collect::<String>())).collect();
+                    let what = if node.metadata().is_dir() {
+                        "ok:dir".to_string()
+                    } else {
+                        let mut f = node.into_file();
+                        let mut s = String::new();
+                        let _ = f.read_to_string(&mut s);
+                        format!("ok:file:{}", s)
+                    };
+                    format!("{}|enc={}|varies={}|{}", what, enc, varies, hs.join(","))
+                }
+            };
+            out.push_str(&format!("{}|{}\n", fl[0], obs));
             continue;
         }
         let (id, hexp) = line.split_once('|').unwrap();
